@@ -78,6 +78,10 @@ CHECKS['C07'] = ('4.C07', 'buffer_input is verified per operation from an arbitr
                  'stream and a reader that returns every legal short-read pattern: representation invariant, require = overflow_error exactly when the request does not fit else enough data whatever the read sizes, '
                  'discard preserves window and counters, bump/rewind; 12 leaf rules give the same result/consumption/position/error on the buffer input as on a memory input over the rest of the stream, or '
                  'overflow_error. string_input/argv_input hand-off checked. File/mmap/stdio/iostream inputs are I/O and FFI: not applicable parts.')
+CHECKS['C12'] = ('4.C12', 'The real parse_tree::parse (make_control state_handler start/success/failure/unwind, internal::state stack, basic_node spans, selectors and the transformers store/remove_content, '
+                 'fold_one, discard_empty) is run on 16 grammars of named rules over symbolic sub-rules (backtracking, star, at/not_at, must, try_catch incl. an action that throws, a recursive rule, a subtree '
+                 'beyond is_leaf<8>) and the returned tree is compared slot by slot with the reference derivation (tree iff plain parse succeeds; nodes = surviving successful matches of selected rules, spans, '
+                 'order, nesting; nothing left over after backtracking or exceptions; builder stack back to the root).')
 E2TRUST = ('Trusted: the hand transcription of the RFC ABNF (spec/*.abnf), the PEG combinator and atom semantics written in lib/peg2smt/pegenc.py (the same semantics the CBMC engine proves for the real '
            'combinators and atoms in C01/C09/C10/C15), z3 4.8/5.1 and cvc5 1.0 (cross-checked against each other for small n), the dumper that reads the grammar structure from the compiler '
            '(rule_t/subs_t of the real headers, regenerated on every run). Encoder validated on every run against the real compiled parser and an independent recogniser on corpus and solver-chosen strings.')
